@@ -477,6 +477,7 @@ type artifacts struct {
 	alt    []string               // cfgref, env: where the literal lives (the other setting a message may name)
 	altSrc string                 // the source of that place
 	text   string                 // the delivered text (for messages)
+	spell  *speller               // how the data was spelled (nil: as dumped, nested)
 }
 
 func newArtifacts() *artifacts {
